@@ -8,7 +8,7 @@ DST = 'deterministic simulation with fault injection'
 CHECKS = {
     'C01': ('exploration',
             'Restart cycles (save, forget, load) over the 52 sample files, files synthesised with populated fields for every registered block type x 13 version '
-            'configurations x seeds, and API-built BSTriShape-family models: raw F2 == F1 byte for byte, default G3 == G2.',
+            'configurations x seeds, API-built models, and all of these after block-graph edits (subtree unlinked from its node, blocks moved to another on-disk order, rebuilt reference lists, added / removed nodes and shapes): raw F2 == F1 byte for byte, default G3 == G2.',
             'Reach comes from the typed generator (inputs x configurations); restart is the only event, the schedule/fault dimension is degenerate. Rejected inputs are counted, not judged.',
             DST + ': restart cycles over typed-synthesis inputs (hook-driven generator), byte-level fixed-point oracle'),
     'C08': ('exploration',
@@ -23,7 +23,7 @@ CHECKS = {
             DST + ': seeded interleaving of actors on copied models incl. destruction order, byte/observation oracle under ASan'),
     'C12': ('exploration',
             'Histories load|build (LE or SE) -> OptimizeFor(options) -> restart -> OptimizeFor(back) -> restart with a mesh model captured before: positions bit-exact, triangle '
-            'multiset, UV/colour within storage precision, bone list, top-4 renormalised weights, shader/parents, distinct sibling names, partition invariants.',
+            'multiset, UV/colour within storage precision (colour channel may only be dropped when every colour is opaque white), bone list, top-4 renormalised weights, shader/parents, distinct sibling names, partition invariants.',
             'Tolerances come from the code\'s own packing; normals/tangents are not compared for model-space shaders.',
             DST + ': conversion histories with restarts against an executable mesh model and quantisation table'),
     'C13': ('exploration',
@@ -33,13 +33,13 @@ CHECKS = {
             DST + ': create/set/get histories with restarts against an executable mesh model and quantisation table'),
     'C14': ('exploration',
             'Actors S (source) and D (destination: same model, fresh model, other loaded model of the same game): repeated CloneShape interleaved with observations of S, restart of D, '
-            'destruction of S before further use of D.',
+            'destruction of S before further use of D; plus a sweep in which a populated block of every registered type (x 6 versions) hangs type-correctly below the cloned shape.',
             'Graph comparisons are up to block renumbering.',
             DST + ': seeded interleaving of source/destination actors incl. destruction order and restart, content-equality oracle under ASan'),
     'C02': ('exploration',
             'Seeded histories load|build -> edits -> save -> queries -> save -> save on one live model (raw and default options) compare the bytes of '
             'consecutive saves (after canonical string-table renumbering) and the query-battery digest around every save; a fault configuration fails the '
-            'first save after k bytes (ENOSPC/EIO) and requires the later saves to equal those of a fault-free twin. Sampling, not proof.',
+            'first save after k bytes (ENOSPC/EIO) and requires the later saves to equal those of a fault-free twin; every synthesised type x version cell is also run after block-level edits (rebuilt reference lists, moved blocks, unlinked subtrees). Sampling, not proof.',
             'Trusts the NIFLY_VERIF string-reference hook for canonical string comparison; default-option runs compare only from the first save on.',
             DST + ': save/query/save histories with injected write failure (F-WFAIL) and restarts, twin-run oracle'),
     'C03': ('exploration',
@@ -59,14 +59,14 @@ CHECKS = {
             DST + ': per-transfer monitor inside simulated save/load of synthesised blocks (typed generator)'),
     'C06': ('exploration',
             'Seeded histories of AddBlock / DeleteBlock / ReplaceBlock / SetBlockOrder / DeleteBlockByType / DeleteUnreferencedBlocks in lock-step with a graph '
-            'model, compared after every step, with restarts.',
+            'model (every reference a block enumerates or serialises), compared after every step, with restarts.',
             'Only valid ids/permutations are issued; references of added blocks are compared after restart only if serialised in that version.',
             DST + ': block-edit histories with restarts in lock-step with an executable graph model'),
     'C07': ('exploration',
             'Every file written after seeded edit histories (vertex deletion, cloning, added blocks and nodes, conversion, string edits) is walked by the '
-            'independent reader from the header tables to the footer; string table and string indices are validated via the string hook.',
+            'independent reader from the header tables to the footer; string table and string indices are validated via the string hook. Saves go to seekable and non-seekable streams, follow failed saves, and the NifFile object is reused across files and versions.',
             'nifparse and the string-reference hook are trusted.',
-            DST + ': write monitor on every durable save of edit histories, independent-reader oracle'),
+            DST + ': write monitor on every durable save of edit histories with stream faults (F-NOSEEK, F-WFAIL) and object reuse (F-REUSE), independent-reader oracle'),
     'C09': ('exploration',
             'Seeded histories of DeleteVertsForShape (single, prefix, suffix, random, alternate, all) with restarts on sample and API-built shapes of every '
             'geometry kind, compared step by step with the naive deletion model; every index and counter is validated.',
@@ -78,7 +78,7 @@ CHECKS = {
             'Full invariants are required after UpdateSkinPartitions and, after a restart, only for shapes rebuilt since their last edit.',
             DST + ': partition histories with restarts against cover-once / limit invariants'),
     'C15': ('fault_enumeration',
-            'Every stored reference field of each file x every corruption kind is enumerated (singles); doubles/triples are seeded samples. Each damaged image '
+            'Every stored reference field of each file x every corruption kind (empty, =count, beyond, self, ancestor, root, wrong type, other block of the same type, random) is enumerated (singles); doubles/triples are seeded samples. Each damaged image '
             'runs load -> query battery -> copy -> save x2 -> reload under ASan+UBSan with a watchdog.',
             'Trusts the block-reference hook to locate reference fields; sanitizers + watchdog are the oracle.',
             DST + ': storage corruption (F-ROT) enumerated over reference fields, zygote fork-per-run, sanitizer/watchdog oracle'),
